@@ -140,6 +140,20 @@ impl Oracle for C02 {
                             if rejoined_after {
                                 continue;
                             }
+                            // the same by epochs: a message of an epoch below the one the client
+                            // (last) joined in - a sender that lags behind can still produce one
+                            // after the re-join - is from before its join: the state joined through
+                            // the welcome holds no secrets of earlier epochs
+                            let joined_at: Option<u64> = w
+                                .history
+                                .iter()
+                                .filter(|r| r.step.node == node && r.class == "ok" && matches!(&r.step.op, Op::AcceptWelcome { w: wr } if w.w_index.get(wr).map(|i| w.welcomes[*i].g == g).unwrap_or(false)))
+                                .filter_map(|r| r.post_state.get(&g).map(|s| s.0))
+                                .last();
+                            if joined_at.map(|e| m.epoch < e).unwrap_or(false) {
+                                w.probe("message_of_an_epoch_before_the_re_join");
+                                continue;
+                            }
                             let window = w.nodes[node].cfg.max_past_epochs as usize;
                             let is_author = node == m.author;
                             let mut offered_in_window = false;
